@@ -181,7 +181,7 @@ func (c *cluster) genAction(rt *rapid.T, p *profile) vAct {
 		}
 		return vAct{A: "dlvamong", L: sub, K: 20}
 	case "poke":
-		return vAct{A: "poke", N: pickU64(rt, "n", up), S: []string{"main", "main", "main", "xfer", "newterm"}[rapid.IntRange(0, 4).Draw(rt, "timer")]}
+		return vAct{A: "poke", N: pickU64(rt, "n", up), S: []string{"main", "main", "main", "newterm"}[rapid.IntRange(0, 3).Draw(rt, "timer")]}
 	case "elect":
 		return vAct{A: "elect", N: pickU64(rt, "n", up), K: rapid.IntRange(1, 6).Draw(rt, "rounds")}
 	case "sever":
